@@ -57,7 +57,10 @@ def _new_server(M, P, docs):
     k_new = [k for k in P.items if k[0] == 'ironplcc' and re.fullmatch(r'lsp_project::<impl at [^>]*>::new', k[1])]
     if len(k_new) != 1: raise Unsupported('LspProject::new: %d candidates' % len(k_new))
     proj = M.call_fn(k_new[0], [_project_value(P, docs)])
-    return Ref(Cell(LSP.mkstruct(P, 'LspServer', sender=Ref(Cell(Opaque('sender'))), project=proj)))
+    # the server value comes from the tree's own constructor, so that every field the tree declares is initialised the way the tree does it
+    k_srv = [k for k in P.items if k[0] == 'ironplcc' and re.fullmatch(r'lsp::<impl at [^>]*>::new', k[1])]
+    if len(k_srv) != 1: raise Unsupported('LspServer::new: %d candidates' % len(k_srv))
+    return Ref(Cell(M.call_fn(k_srv[0], [Ref(Cell(Opaque('sender'))), proj])))
 
 def _wrapped(M, P, server):
     fs = [f for f, _ in P.structs.get('LspProject', [])]; sf = [f for f, _ in P.structs.get('LspServer', [])]
